@@ -8,7 +8,8 @@ mkdir -p $OUT
 rm -rf $S && mkdir -p $S
 rsync -a --exclude .git --exclude testdata --exclude examples /repo/ $S/
 mkdir -p $S/zz_verif && cp -r /verif/sim/* $S/zz_verif/
-[ -f /verif/sim/export/zz_verif_export.go ] && cp /verif/sim/export/zz_verif_export.go $S/ && rm -rf $S/zz_verif/export
+cp /verif/sim/export/*.go $S/ && rm -rf $S/zz_verif/export
+cp -r /verif/fixtures $S/zz_verif/fixtures
 (cd /verif/tools/rewrite && go1.26.8 build -o $OUT/rewrite . )
 $OUT/rewrite $S
 cd $S
